@@ -409,14 +409,16 @@ class RequestWideParams(object):
         # JSONschema has already confirmed that limit has the form
         # of an integer.
         if limit:
-            limit = int(limit[0])
+            # The schema has validated the *last* value (it sees the query
+            # string as a plain dict), so that is the one to use.
+            limit = int(limit[-1])
 
         # TODO(efried): Make it an error to specify group_policy more than once
         #  - maybe when we make it optional.
         group_policy = req.GET.getall('group_policy') or None
         # Schema ensures we get either "none" or "isolate"
         if group_policy:
-            group_policy = group_policy[0]
+            group_policy = group_policy[-1]
 
         anchor_required_traits = None
         anchor_forbidden_traits = None
